@@ -13,7 +13,7 @@ CLAIMED = {
              'classification, with discharged language obligations, of every unchecked construction site. Exact, no bounds.',
         design_ref='DESIGN.md §4 C01, §3 Engine A, Engine C (C-sites)',
         note='Trusted: rustc expansion/HIR/MIR; my transcription of the two RFC grammars (spec/); the ABNF→DFA compiler; std contracts of '
-             'from_utf8/chars/iter. Not run-time: nothing of iref is executed.',
+             'from_utf8/chars/iter. Not run-time: nothing of iref is executed. The thorough tier runs the same exhaustive analysis and, before it, the detection self-test: every seeded change kept under seeded/ for that property is applied to a scratch copy of the current tree (never to /repo) and must be reported (iv/selftest.py; result recorded in the evidence notes).',
         technique='automata equivalence on compiler-extracted DFAs + MIR dataflow rules (static analysis)',
         engine='A+C',
     ),
@@ -268,7 +268,7 @@ def build():
         ],
         'checks': checks,
         'not_applicable': na,
-        'notes': 'Static analysis only: every check compiles a scratch copy of the current /repo tree under the driver and analyses the facts; nothing of iref is executed.',
+        'notes': 'Static analysis only: every check compiles a scratch copy of the current /repo tree under the driver and analyses the facts; nothing of iref is executed. The thorough tier runs the same exhaustive analysis and, before it, the detection self-test: every seeded change kept under seeded/ for that property is applied to a scratch copy of the current tree (never to /repo) and must be reported (iv/selftest.py; result recorded in the evidence notes).',
     }
     with open(os.path.join(VERIF, 'MANIFEST.json'), 'w') as fh:
         json.dump(m, fh, indent=1)
